@@ -115,7 +115,7 @@ impl Slot {
 }
 
 fn make_tensor(rank: u8, dims: (usize, usize, usize), values: &[f32]) -> tensor::Tensor {
-    let (a, b, c) = dims;
+    let (_, b, c) = dims;
     match rank {
         1 => tensor::Tensor::single(values.to_vec()),
         2 => tensor::Tensor::double(values.chunks(b * c).map(|r| r.to_vec()).collect()),
@@ -180,7 +180,6 @@ fn run_library(opt: &OptCfg, slots: &[Slot], rank: u8, order: &[u16], only: Opti
 
 pub(crate) trait Real: Copy {
     fn from32(x: f32) -> Self;
-    fn to64(self) -> f64;
     fn add(self, o: Self) -> Self;
     fn sub(self, o: Self) -> Self;
     fn mul(self, o: Self) -> Self;
@@ -193,9 +192,6 @@ pub(crate) trait Real: Copy {
 impl Real for f32 {
     fn from32(x: f32) -> f32 {
         x
-    }
-    fn to64(self) -> f64 {
-        self as f64
     }
     fn add(self, o: f32) -> f32 {
         self + o
@@ -223,9 +219,6 @@ impl Real for f32 {
 impl Real for f64 {
     fn from32(x: f32) -> f64 {
         x as f64
-    }
-    fn to64(self) -> f64 {
-        self
     }
     fn add(self, o: f64) -> f64 {
         self + o
